@@ -34,6 +34,31 @@ theorem span_init (h : Heap) (size : Nat) (hs : size < 4294967296) :
     ∀ f : Slice, f.obj < h.size → Below (SpanCache.new h size).1 (SpanCache.new h size).2 f :=
   cacheInv_new h size hs
 
+/-- the span size the source passes to `span.NewSpanCache` (Tie A: `Facts.spanCacheBytes`, regenerated from
+    protocol/thrift/binary.go on every run) fits the allocator's `uint32` arithmetic -/
+theorem spanCacheBytes_lt : Facts.spanCacheBytes < 4294967296 := by decide
+
+/-- span_init at the source's value: `spanCache = span.NewSpanCache(Facts.spanCacheBytes)` satisfies the
+    cache invariant, so `span_disjoint`, `read_fresh`, `decodes_independent` and `flag_irrelevant` (all stated
+    for EVERY cache state with `CacheInv`, i.e. every span size below 2^32 and every fill level) apply to the
+    real configuration and to every state reachable from it. -/
+theorem span_init_source (h : Heap) :
+    CacheInv (SpanCache.new h Facts.spanCacheBytes).1 (SpanCache.new h Facts.spanCacheBytes).2 ∧
+    ∀ f : Slice, f.obj < h.size →
+      Below (SpanCache.new h Facts.spanCacheBytes).1 (SpanCache.new h Facts.spanCacheBytes).2 f :=
+  span_init h Facts.spanCacheBytes spanCacheBytes_lt
+
+/-- span_disjoint at the source's value: the first `Make` after `NewSpanCache(Facts.spanCacheBytes)` (and, by
+    the invariant it re-establishes, every later one) returns cap = len = n, disjoint from everything that
+    existed before the cache was created -/
+theorem span_disjoint_source (h : Heap) (n : Nat) (contended : Bool) :
+    let c := SpanCache.new h Facts.spanCacheBytes
+    let r := c.1.make c.2 n contended
+    r.1.len = n ∧ r.1.cap = n ∧ CacheInv r.2.1 r.2.2 ∧ (∀ f : Slice, f.obj < h.size → r.1.CapDisjoint f) := by
+  obtain ⟨hc, hb⟩ := span_init_source h
+  obtain ⟨a, b, c, _, e⟩ := span_disjoint _ _ n contended hc
+  exact ⟨a, b, c, fun f hf => (e f (hb f hf)).1⟩
+
 /-! ## Binary.ReadBinary / ReadString -/
 
 /-- read_fresh (Binary): with the span cache on or off, contended or not, a successful
